@@ -374,6 +374,12 @@ func (p *Program) verify(fn *ssa.Function, fc *FuncContract) (x *Exec) {
 	}
 	for i, fv := range fn.FreeVars {
 		v := st.freshValue(fmt.Sprintf("fv%d.%s", i, fv.Name()), fv.Type())
+		if pv, ok := v.(Ptr); ok {
+			// a captured variable lives in a cell the enclosing function allocated: never nil, allocated at entry
+			st.assume(Not(Eq(pv.R, Int(0))))
+			st.assume(Select(st.heap.alloc, pv.R))
+			fr.names[fv.Name()] = v
+		}
 		fr.env[fv] = v
 	}
 	st.old = st.heap.clone()
